@@ -468,15 +468,12 @@ def stepLine (st : St) (cmd : String) (args : List String) : St × String :=
       match runP pObs body with
       | none => viol st "protocol" "unparsable observation"
       | some o =>
-        match checkForestObs st.forest o with
-        | some (t, d) => viol st t d
-        | none =>
-          match checkMembersObs st.forest st.members o with
-          | some (t, d) => viol st t d
-          | none =>
-            match checkWf o with
-            | some (t, d) => viol st t d
-            | none => (st, "ok")
+        -- the three families are judged independently; every failing one is named (first failing check of each)
+        match [checkForestObs st.forest o, checkMembersObs st.forest st.members o, checkWf o].filterMap id with
+        | [] => (st, "ok")
+        | (t, d) :: rest =>
+          let (st', line) := viol st t d
+          (st', line ++ String.join (rest.map fun (t, d) => s!" ## {t} | {d}"))
     | _ => viol st "protocol" "observation failed"
   | _, _ => (st, "ok")
 
